@@ -1,4 +1,5 @@
 mod c01;
+mod c03;
 mod c04;
 mod c05;
 mod c09;
@@ -83,6 +84,7 @@ fn main() {
         ("gen", "C05") => { c05::generate("C05", seed, &tier, &mut out); c01::generate("C05", seed, &tier, &mut out) }
         ("gen", "C04") => { c05::generate("C04", seed, &tier, &mut out); c01::generate("C04", seed, &tier, &mut out); c04::generate(seed, &tier, &mut out) }
         ("gen", "C07") => c01::generate("C07", seed, &tier, &mut out),
+        ("gen", "C03") => c03::generate(seed, &tier, &mut out),
         ("gen", "C11") => c11::generate(seed, &tier, &mut out),
         ("gen", "C17") => c17::generate(seed, &tier, &mut out),
         ("gen", "C19") => c19::generate(seed, &tier, &mut out),
